@@ -1,42 +1,37 @@
 (* Model of the encoder entry points that are built on top of the byte-returning
-   encoders: Map.Json / JsonIndent (post-processing of encoding/json's output),
+   encoders: Map.Json / JsonIndent (on top of encoding/json's Encoder and Indent),
    the Writer and WriterRaw forms (xml.go, xmlseq.go, json.go) and the Maps
    string / file forms (files.go).  encoding/json, io.Writer and the file system
    are the environment: marshalled bytes and the result of the byte-returning
    form are arguments.  Executable transcriptions; NO proofs in this file. *)
 From Mxj Require Export Model.XmlEnc.
 
-(* bytes.Replace(x, old, new, -1) for a non-empty old: left to right, non-overlapping *)
-Fixpoint replace_all_aux (old new x : str) (skip : nat) : str :=
-  match x with
-  | [] => []
-  | c :: x' =>
-      match skip with
-      | S k => replace_all_aux old new x' k
-      | O => if prefixb old x
-             then new ++ replace_all_aux old new x' (length old - 1)
-             else c :: replace_all_aux old new x' 0
-      end
+Definition nl : ascii := ascii_of_nat 10.
+
+(* bytes.TrimSuffix(b, "\n") *)
+Definition trim_suffix_nl (b : str) : str :=
+  match rev b with
+  | c :: r => if Ascii.eqb c nl then rev r else b
+  | [] => b
   end.
-Definition replace_all (old new x : str) : str := replace_all_aux old new x 0.
 
-Definition bs : str := [ascii_of_nat 92].   (* one backslash *)
-
-(* if !safeEncoding { b = bytes.Replace(b, `\u003c`, "<", -1); ... `\u003e`, ">" ...; ... `\u0026`, "&" ... } *)
-Definition json_post (safe : bool) (b : str) : str :=
-  if safe then b
-  else replace_all (bs ++ s "u0026") (s "&")
-         (replace_all (bs ++ s "u003e") (s ">")
-            (replace_all (bs ++ s "u003c") (s "<") b)).
-
-(* Map.Json(safeEncoding...) / Map.JsonIndent(prefix, indent, safeEncoding...):
-   marshalled = what json.Marshal / json.MarshalIndent returned for the Map *)
-Definition map_json (safe : bool) (marshalled : res str) : res str :=
-  match marshalled with
-  | Ok b => Ok (json_post safe b)
+(* marshalJSON(v, escapeHTML) (json.go, after fix b2598e9): enc := json.NewEncoder(&buf);
+   enc.SetEscapeHTML(escapeHTML); if err := enc.Encode(v); err != nil { return nil, err };
+   return bytes.TrimSuffix(buf.Bytes(), "\n"), nil.
+   Map.Json(safeEncoding...) = marshalJSON(mv, safe).  encoded = what Encoder.Encode wrote for the Map
+   under SetEscapeHTML(safe) - the environment *)
+Definition map_json (encoded : res str) : res str :=
+  match encoded with
+  | Ok b => Ok (trim_suffix_nl b)
   | Err e => Err e
   | Panic => Panic
   end.
+
+(* Map.JsonIndent(prefix, indent, safeEncoding...): b, err := marshalJSON(mv, safe); if err != nil { return nil, err };
+   err = json.Indent(&buf, b, prefix, indent); if err != nil { return nil, err }; return buf.Bytes(), nil.
+   indent = json.Indent with the given prefix and indent - the environment *)
+Definition map_json_indent (indent : str -> res str) (encoded : res str) : res str :=
+  bind (map_json encoded) indent.
 
 (* ---------------- Writer forms ----------------
    x, err := mv.Xml(rootTag...); if err != nil { return err }; _, err = w.Write(x); return err
@@ -69,14 +64,15 @@ Fixpoint maps_concat (sep : str) (first : bool) (encs : list (res str)) (acc : s
 (* Maps.XmlString() and Maps.XmlStringIndent(prefix, indent): encs = the per-Map Xml() / XmlIndent() results *)
 Definition maps_xml_string (encs : list (res str)) : str * option err := maps_concat [] true encs [].
 
-(* Maps.JsonString(safeEncoding...): j, err := v.Json(safeEncoding...) per Map (fix da6537e) *)
-Definition maps_json_string (safe : bool) (marshalled : list (res str)) : str * option err :=
-  maps_concat [] true (map (map_json safe) marshalled) [].
+(* Maps.JsonString(safeEncoding...): j, err := v.Json(safeEncoding...) per Map (fix da6537e).
+   js flag = the per-Map results of Json(flag) *)
+Definition maps_json_string (safe : bool) (js : bool -> list (res str)) : str * option err :=
+  maps_concat [] true (js safe) [].
 
 (* Maps.JsonStringIndent(prefix, indent, safeEncoding...): v.JsonIndent(prefix, indent, safeEncoding...) per Map,
-   and "\n" written between the documents (haveFirst) *)
-Definition maps_json_string_indent (safe : bool) (marshalled : list (res str)) : str * option err :=
-  maps_concat [ascii_of_nat 10] true (map (map_json safe) marshalled) [].
+   and "\n" written between the documents (haveFirst).  ji flag = the per-Map results of JsonIndent(p, i, flag) *)
+Definition maps_json_string_indent (safe : bool) (ji : bool -> list (res str)) : str * option err :=
+  maps_concat [nl] true (ji safe) [].
 
 (* Maps.XmlFile / XmlFileIndent / JsonFile / JsonFileIndent: s, err := mvs.XxxString(...); if err != nil
    { return err }; create; WriteString(s) - file content (None = file not written) and error *)
